@@ -17,7 +17,8 @@ vars == <<l, run, cfg, viol, hits, nruns, qs>>
 Rules == {"Z1", "Z2", "Z3", "Z4", "Z5", "ZN", "Q1", "Q2", "PANIC"}
 \* a name resolved by multicast DNS: its last label is "local"
 IsLocal(n) == Len(n) >= 6 /\ SubSeq(n, Len(n) - 5, Len(n)) = ".local"
-Add(v, x) == IF Len(v) >= 24 THEN v ELSE Append(v, x)
+\* the cap is per rule (x[2]): a flood of one rule (say Q2, which another check owns) must not crowd out the others
+Add(v, x) == IF Len(SelectSeq(v, LAMBDA e : e[2] = x[2])) >= 6 THEN v ELSE Append(v, x)
 RECURSIVE AddAll(_, _)
 AddAll(v, xs) == IF xs = <<>> THEN v ELSE AddAll(Add(v, Head(xs)), Tail(xs))
 Flush == viol = <<>> \/ PrintT(<<"RUNVIOL", ToJson([run |-> run, viol |-> viol])>>)
